@@ -12,7 +12,9 @@ var c03Schemes = []string{"http", "https", "HTTP", "hTTps"}
 var c03Hosts = []string{"a.test", "A.Test", "a.test.", "b.test", "127.0.0.1", "[::1]", "[::1:8080]", "[0:0:0:0:0:0:0:1]", "[::ffff:1.2.3.4]", "[2001:db8::8080]", "[2001:db8::]", "xn--bcher-kva.test", "a%2Etest"}
 var c03Ports = []string{"", "", ":", ":80", ":443", ":8080", ":080", ":8443", ":0"}
 var c03Segs = []string{"a", "A", ".", "..", "%2e", "%2E", "%41", "%61", "~", "%7E", "%7e", "%2F", "%2f", "%20", "é", "%C3%A9", "%c3%a9", "%E9", "%e9", ";p", "a;p=1", ":", "@", "b", "", "%25", "%2541", "+", "%2B", "%00", "*", "%"}
-var c03QueryAtoms = []string{"q=1", "q=2", "a=1&b=2", "b=2&a=1", "q=%E9", "q=%e9", "q=é", "q=%C3%A9", "q=%41", "q=A", "q=a", "q=%7E", "q=~", "q=%2F", "q=/", "q=%20", "q=+", "x", "", "q=%3F", "q=?", "q=a#f"}
+var c03QueryAtoms = []string{"q=1", "q=2", "a=1&b=2", "b=2&a=1", "q=%E9", "q=%e9", "q=é", "q=%C3%A9", "q=%41", "q=A", "q=a", "q=%7E", "q=~", "q=%2F", "q=/", "q=%20", "q=+", "x", "", "q=%3F", "q=?", "q=a#f",
+	// malformed escapes stay as they are: only valid ones take part in normalisation
+	"q=%7z", "q=p", "x=100%zz", "x=100%00", "q=%g1", "q=%G1", "q=%", "q=%4", "q=%41%", "q=%4g", "q=@"}
 var c03Userinfo = []string{"", "", "", "u@", "u:p@", "U@"}
 
 func c03URI(t *rapid.T, label string) string {
@@ -55,7 +57,7 @@ func c03Rewrite(t *rapid.T, label, u string) string {
 		}
 		return u
 	}
-	switch rapid.IntRange(0, 27).Draw(t, label) {
+	switch rapid.IntRange(0, 31).Draw(t, label) {
 	case 0:
 		return rep("http://", "HTTP://")
 	case 1:
@@ -112,6 +114,14 @@ func c03Rewrite(t *rapid.T, label, u string) string {
 		return rep("a.test", "a.test.")
 	case 27:
 		return rep("%25", "%")
+	case 28:
+		return rep("%7z", "p")
+	case 29:
+		return rep("%zz", "%00")
+	case 30:
+		return rep("%g1", "%G1")
+	case 31:
+		return rep("q=%4", "q=%04")
 	}
 	return u
 }
@@ -146,7 +156,8 @@ func C03(t *rapid.T) *world.Scenario {
 		var hdr [][2]string
 		switch Weighted(t, lbl+"-m", 75, 8, 5, 4, 4, 4) {
 		case 1:
-			hdr = append(hdr, H("Range", "bytes=0-3"))
+			// other range units and spellings are range requests just the same
+			hdr = append(hdr, H("Range", Pick(t, lbl+"-range", "bytes=0-3", "bytes=0-3", "Bytes=0-3", "items=0-1", "pages=2-3", "bytes=-5", "x")))
 		case 2:
 			method = "HEAD"
 		case 3:
